@@ -705,6 +705,53 @@ fn gen_value(rng: &mut StdRng, g: &mut GenState, cfg: &HistCfg, memtable: usize)
 /// another round one level further down, and the usual random operations.
 const TRIVIAL_PROLOGUE: usize = 16;
 
+/// Profile "straddle": every run starts with the recipe for a user key whose versions STRADDLE
+/// two files of level 1 next to a file whose compaction is grown by the input expansion:
+///   level 2:  P = [d .. h]            (first flush: nothing overlaps, pushed down)
+///   level 1:  [h(big)]                (second flush: overlaps P)
+///   level 0:  [c e(big) g k@old | snapshot | k@new z]   (third flush)
+///   compact a..c : level 0 + level 1 merged into level 1 with 1 KiB files: the outputs roll over
+///                  after g and between the two versions of k (the snapshot keeps the older one):
+///                  F = [c..g]  G = [h..k@new]  G' = [k@old..z]
+///   compact c..d : picks F; its parent P reaches h, so the expansion pulls G in; G' has to follow
+///                  (boundary file) or k@new sinks below k@old.
+/// Needs block 256, file 1024 and a memtable that never fills (forced by the caller).
+const STRADDLE_PROLOGUE: usize = 15;
+
+fn straddle_prologue(i: usize, g: &mut GenState, cfg: &HistCfg) -> Op {
+    let n = cfg.nkeys as i64;
+    // c d e g h k z spread over the universe (nkeys >= 11 is forced by the caller)
+    let (c, d, e, gk, h, k, z) = (2, 3, 4, 6, 7, 9, n);
+    let mut small = |g: &mut GenState| {
+        g.next_vid += 1;
+        ValSpec { vid: g.next_vid - 1, len: 12, comp: true }
+    };
+    let big = |g: &mut GenState| {
+        g.next_vid += 1;
+        ValSpec { vid: g.next_vid - 1, len: 1500, comp: false }
+    };
+    match i {
+        0 => Op::Put { k: d, v: small(g) },
+        1 => Op::Put { k: h, v: small(g) },
+        2 => Op::Flush,
+        3 => Op::Put { k: h, v: big(g) },
+        4 => Op::Flush,
+        5 => Op::Put { k: c, v: small(g) },
+        6 => Op::Put { k: e, v: big(g) },
+        7 => Op::Put { k: gk, v: small(g) },
+        8 => Op::Put { k, v: small(g) },
+        9 => {
+            g.nsnaps += 1;
+            Op::Snap
+        }
+        10 => Op::Put { k, v: small(g) },
+        11 => Op::Put { k: z, v: small(g) },
+        12 => Op::Flush,
+        13 => Op::Compact { lo: Some(1), hi: Some(c) },
+        _ => Op::Compact { lo: Some(c), hi: Some(d) },
+    }
+}
+
 fn trivial_prologue(i: usize, rng: &mut StdRng, g: &mut GenState, cfg: &HistCfg, cur: &OptSet) -> Op {
     let n = cfg.nkeys as i64;
     // four keys spread over the universe (at least 4 keys: nkeys >= 4 is forced by the caller)
@@ -1065,6 +1112,8 @@ pub fn run_hist(
                         }
                     } else if cfg.profile == "trivial" && i < TRIVIAL_PROLOGUE {
                         trivial_prologue(i, &mut rng, &mut g, cfg, &sess.opts)
+                    } else if cfg.profile == "straddle" && i < STRADDLE_PROLOGUE {
+                        straddle_prologue(i, &mut g, cfg)
                     } else {
                         gen_op(&mut rng, &mut g, cfg, &sess.opts)
                     }
